@@ -1,8 +1,8 @@
-(* C06 — executable model of Class.__deepcopy__ (src/pymoca/ast.py:866-880) run by
-   copy.deepcopy over a class tree, and of the AST edit API (ast.py:792-864).
+(* C06 — executable model of Class.__deepcopy__ (src/pymoca/ast.py:876-890) run by
+   copy.deepcopy over a class tree, and of the AST edit API (ast.py:810-874).
    No proofs in this file.
 
-   flags: g_fixed  = the guard of ast.py:868 is `id(self.parent) not in memo`
+   flags: g_fixed  = the guard of ast.py:878 is `id(self.parent) not in memo`
                      (false: the pre-08ba236 `self.parent not in memo`, always true);
           h_fixed  = the copy ends without a per-instance hook (`del new.__deepcopy__`)
                      (false: pre-08ba236 `new.__deepcopy__ = _deepcp`, the ORIGINAL's bound method).
@@ -24,7 +24,7 @@ Fixpoint mget (m : memo) (a : addr) : option addr :=
   | (k, v) :: m' => if addr_dec a k then Some v else mget m' a
   end.
 
-(* ast.py:868: `if self.parent is not None and <guard>:` *)
+(* ast.py:878: `if self.parent is not None and <guard>:` *)
 Definition guard (fl : flags) (m : memo) (pa : addr) : bool :=
   if g_fixed fl then match mget m pa with Some _ => false | None => true end
   else true.       (* `self.parent not in memo`: an object is never equal to an int key *)
@@ -38,7 +38,7 @@ Definition copy_node (fl : flags) (n ti : nat) (p : path) (m : memo) (e : path *
   : memo * (path * info) :=
   let '(r, i) := e in
   let src := (ti, p ++ r) in
-  (* ast.py:868-869   memo[id(self.parent)] = self.parent *)
+  (* ast.py:878-879   memo[id(self.parent)] = self.parent *)
   let m1 := match par i with
             | Some pa => if guard fl m pa then (pa, pa) :: m else m
             | None => m
@@ -50,7 +50,7 @@ Definition copy_node (fl : flags) (n ti : nat) (p : path) (m : memo) (e : path *
               | Some pa => match mget m2 pa with Some v => Some v | None => Some pa end
               | None => None
               end in
-  (* ast.py:878 `del new.__deepcopy__`  |  pre-fix `new.__deepcopy__ = _deepcp` *)
+  (* ast.py:888 `del new.__deepcopy__`  |  pre-fix `new.__deepcopy__ = _deepcp` *)
   let hk' := if h_fixed fl then None else Some src in
   (m2, (r, Info (dat i) par' hk')).
 
@@ -74,7 +74,7 @@ Definition src_of (w : world) (a : addr) : option (info * list (path * info)) :=
 Definition no_hook (i : info) : bool := match hk i with None => true | Some _ => false end.
 
 (* copy.deepcopy(x) with a fresh memo, x = the class at address a (a Tree, or the class
-   found by find_class(copy=True), ast.py:719-720).  copy.py:151 takes x.__deepcopy__: a
+   found by find_class(copy=True), ast.py:719-720, 807-808).  copy.py:151 takes x.__deepcopy__: a
    per-instance hook bound to another object h runs Class.__deepcopy__ on h.  Owned classes
    of the object being copied that carry a foreign hook do not occur in reachable worlds
    (the model is stuck = None there; never hit by the correspondence). *)
@@ -95,8 +95,8 @@ Definition deepcopy (fl : flags) (w : world) (a : addr) : option world :=
 (* ---- the edit API ---------------------------------------------------------------- *)
 Inductive op :=
 | DeepCopy (a : addr)                       (* copy.deepcopy(tree) / find_class(copy=True) *)
-| AddClass (a : addr) (k : key) (d : cdata) (* ast.py:792 add_class of a new class *)
-| RmClass (a : addr) (k : key)              (* ast.py:801 remove_class *)
+| AddClass (a : addr) (k : key) (d : cdata) (* ast.py:810 add_class of a new class *)
+| RmClass (a : addr) (k : key)              (* ast.py:819 remove_class *)
 | SetData (a : addr) (d : cdata).           (* add/remove_symbol, add/remove_equation: new content *)
 
 Definition op_tree (o : op) : nat :=
